@@ -15,6 +15,10 @@ func (c Config) Parse(source string, loc SourceLoc) (ASTNode, Error) {
 }
 
 // Parse creates an AST from a sequence of tokens.
+// maxBlockDepth bounds the nesting of blocks. Compiling and rendering recurse once per level, and a
+// goroutine stack that grows past the runtime's limit ends the process; no recover can catch that.
+const maxBlockDepth = 100_000
+
 func (c Config) parseTokens(tokens []Token) (ASTNode, Error) { //nolint: gocyclo
 	// a stack of control tag state, for matching nested {%if}{%endif%} etc.
 	type frame struct {
@@ -81,6 +85,9 @@ func (c Config) parseTokens(tokens []Token) (ASTNode, Error) { //nolint: gocyclo
 					}
 					return nil, Errorf(tok, "%s not inside %s%s", tok.Name, strings.Join(cs.ParentTags(), " or "), suffix)
 				case cs.IsBlockStart():
+					if len(stack) >= maxBlockDepth {
+						return nil, Errorf(tok, "blocks nested more than %d deep", maxBlockDepth)
+					}
 					push := func() {
 						stack = append(stack, frame{syntax: sd, node: bn, ap: ap})
 						sd, bn = cs, &ASTBlock{Token: tok, syntax: cs}
